@@ -133,6 +133,9 @@ structure Env where
   v : Var → PyVal
   f : Flag → Bool
 
+/-- an environment from a list of assignments (unassigned variables: the integer 1; all flags False) -/
+def Env.ofList (l : List (Var × PyVal)) : Env := ⟨fun x => (l.lookup x).getD (.int 1), fun _ => false⟩
+
 /-! ### rational helpers -/
 
 def rabs (q : Rat) : Rat := if q < 0 then -q else q
